@@ -93,6 +93,19 @@ def install(reg):
         v = args[0]
         if isinstance(v, (VInt, VBool)):
             return [(st, VInt(ex.as_int(v)))]
+        if isinstance(v, VOpt):
+            out = []
+            for s2, inner in ex.force(st, v, node, 'builtins:TypeError'):        # int(None) is a TypeError
+                out.extend([(s2, None)] if s2.exc is not None else _int(ex, s2, [inner] + list(args[1:]), kw, node))
+            return out
+        if isinstance(v, VNone):
+            return [(ex.raise_exc(st, 'builtins:TypeError'), None)]
+        if isinstance(v, VStr) and len(args) == 1:
+            # int(text): which texts are numeric is not modelled -- the number is an uninterpreted function of the text,
+            # and ValueError is possible for every text
+            s2 = st.copy()
+            ex.raise_exc(s2, 'builtins:ValueError')
+            return [(st, VInt(z3.Function('int_of_str', StrS, I)(v.t))), (s2, None)]
         ex.unsupported(node, 'int() of %r' % (v,))
 
     @ext('builtins.bool')
@@ -441,6 +454,33 @@ def install(reg):
             out.append((st_t, v))
         return out
 
+    @ext('builtins.iter')
+    def _iter(ex, st, args, kw, node):
+        v = args[0]
+        if isinstance(v, VDict):
+            return [(st, VFunc('dictiter', dict=v, mode='keys'))]
+        if isinstance(v, VFunc) and v.kind == 'dictiter':
+            return [(st, v)]
+        ex.unsupported(node, 'iter() of %r' % (v,))
+
+    @ext('builtins.next')
+    def _next(ex, st, args, kw, node):
+        """next(iter(d.keys())): SOME key of the dictionary (iteration order is not modelled); StopIteration if it is empty"""
+        it = args[0]
+        if not (isinstance(it, VFunc) and it.kind == 'dictiter' and it.mode == 'keys' and len(args) == 1):
+            ex.unsupported(node, 'next() of something else than a fresh key iterator of a dictionary')
+        d = it.dict
+        n = ex.card_fn(d)(ex.dict_dom(st, d))
+        out = []
+        ok, bad = ex.guard(st, n > 0, 'builtins:StopIteration')
+        if bad is not None:
+            out.append((bad, None))
+        if ok is not None:
+            k = z3.Const(fresh_name('somekey'), sort_of(d.k))
+            ok.assume(z3.Select(ex.dict_dom(ok, d), k))
+            out.append((ok, ex.wf(ok, from_term(d.k, k))))
+        return out
+
     @ext('dict.remove')
     def _sremove(ex, st, args, kw, node):
         """set.remove(x) (sets are dictionaries with None values): KeyError if absent"""
@@ -460,6 +500,35 @@ def install(reg):
         ex.dict_del(st, args[0], args[1])
         return [(st, VNone())]
     reg.externals['set.discard'] = _sdiscard
+
+    @ext('dict.clear')
+    def _dclear(ex, st, args, kw, node):
+        d = args[0]
+        kd, dd = ex._dd(st, d)
+        empty = z3.K(sort_of(d.k), False)
+        st.fact(ex.card_fn(d)(empty) == 0)
+        ex.heap_set(st, kd, z3.Store(dd, d.t, empty))
+        return [(st, VNone())]
+    reg.externals['set.clear'] = _dclear
+
+    @ext('dict.update')
+    def _dupdate(ex, st, args, kw, node):
+        """d.update(other) for two dictionaries of the same key/value types: union of the domains, other's values win"""
+        d, o = args[0], args[1]
+        if not (isinstance(o, VDict) and o.k == d.k and o.v == d.v):
+            ex.unsupported(node, 'dict.update with something else than a dictionary of the same type')
+        kd, dd = ex._dd(st, d)
+        kv, dv = ex._dv(st, d)
+        dom, vals = z3.Select(dd, d.t), z3.Select(dv, d.t)
+        dom2, vals2 = ex.dict_dom(st, o), ex.dict_vals(st, o)
+        k = z3.Const(fresh_name('uk'), sort_of(d.k))
+        new_dom = z3.Lambda([k], z3.Or(z3.Select(dom, k), z3.Select(dom2, k)))
+        new_vals = z3.Lambda([k], z3.If(z3.Select(dom2, k), z3.Select(vals2, k), z3.Select(vals, k)))
+        f = ex.card_fn(d)
+        st.fact(f(new_dom) >= f(dom), f(new_dom) >= 0)
+        ex.heap_set(st, kd, z3.Store(dd, d.t, new_dom))
+        ex.heap_set(st, kv, z3.Store(dv, d.t, new_vals))
+        return [(st, VNone())]
 
     @ext('dict.setdefault')
     def _dsetdefault(ex, st, args, kw, node):
